@@ -831,6 +831,9 @@ class ArrayOf(DataType):
         self.check_type(value)
         try:
             if previous:
+                # elements beyond the length of the previous value have no previous element
+                previous = list(previous)[:len(value)]
+                previous += [None] * (len(value) - len(previous))
                 return tuple(self.members.validate(v, p) for v, p in zip(value, previous))
             return tuple(self.members.validate(v) for v in value)
         except Exception as e:
